@@ -648,10 +648,23 @@ def f_industrial_split_preempt(case):
 
 
 # ------------------------------------------------------------------------------ rate limiting
-def mk_rl_policy(idx, a, b):
+def mk_rl_policy(idx, a, b, decimal=False):
+    """Rate-limiter policy number ``idx``; ``decimal`` selects window sizes / rates that are not dyadic (0.1 s,
+    0.05 s ...), where arrivals fall exactly on window boundaries that floats cannot represent."""
     from happysimulator.components.rate_limiter import policy as rp
     a, b = a % 8, b % 8
     i = idx % 5
+    if decimal:
+        w = [0.1, 0.05, 0.025, 0.2][a % 4]
+        if i == 0:
+            return rp.TokenBucketPolicy(capacity=float(1 + a % 3), refill_rate=[10.0, 30.0, 70.0][b % 3], initial_tokens=0.0)
+        if i == 1:
+            return rp.LeakyBucketPolicy(leak_rate=[10.0, 30.0, 70.0][b % 3])
+        if i == 2:
+            return rp.SlidingWindowPolicy(window_size_seconds=w, max_requests=1 + b % 3)
+        if i == 3:
+            return rp.FixedWindowPolicy(requests_per_window=1 + b % 3, window_size=w)
+        return rp.AdaptivePolicy(initial_rate=30.0 + 10 * a, min_rate=5.0, max_rate=200.0, window_size=w)
     if i == 0:
         return rp.TokenBucketPolicy(capacity=float(1 + a % 4), refill_rate=64.0 + 32 * b, initial_tokens=float(a % 2))
     if i == 1:
@@ -670,9 +683,15 @@ def f_rate_limited_entity(case):
     k = K(case)
     sink = Sink("sink")
     srv = Server("srv", concurrency=2, service_time=ConstantLatency(ticks(1 + k[3] % 3)), downstream=sink)
-    rl = RateLimitedEntity("limiter", srv, mk_rl_policy(k[0], k[1], k[2]), queue_capacity=[1000, 5][k[4] % 2])
+    dec = bool(k[6] % 2)
+    rl = RateLimitedEntity("limiter", srv, mk_rl_policy(k[0], k[1], k[2], decimal=dec), queue_capacity=[1000, 5][k[4] % 2])
     null = NullRateLimiter("null", rl)
     n = 50
+    if dec:      # arrivals every 25 ms / 50 ms: they hit the decimal window boundaries exactly
+        a = Source.constant(rate=[40.0, 20.0][k[5] % 2], name="a", event_provider=SimpleEventProvider(rl, "Request", T(n * 4), context_fn=req_ctx(case["seed"])))
+        b = Source.constant(rate=40.0, name="b", event_provider=SimpleEventProvider(null, "Request", T(n * 4), context_fn=req_ctx(case["seed"] + 1)))
+        sim = mksim([rl, null, srv, sink], n * 4 + 600, sources=[a, b])
+        return Scenario(sim, workload=2 * n)
     a = const_source("a", rl, 1 + k[5] % 2, n, case["seed"])
     b = poisson_source("b", null, 120.0, n, case["seed"] + 1)
     sim = mksim([rl, null, srv, sink], n + 400, sources=[a, b])
@@ -690,8 +709,14 @@ def f_inductor(case):
     n = 60
     a = const_source("a", ind, 2 + k[3] % 3, n, case["seed"])
     burst = poisson_source("burst", ind, 200.0 + 50 * (k[4] % 4), n // 2, case["seed"] + 1)
-    sim = mksim([ind, srv, sink], n + 400, sources=[a, burst])
-    return Scenario(sim, workload=2 * n)
+    evs = []
+    if k[5] % 2:      # same-instant bursts and microsecond gaps (several clients firing together)
+        for j in range(4):
+            t0 = (9 * j) * TICK          # the first group precedes every source arrival
+            for d in (0, 0, 1000 * (1 + k[6] % 3), 1000 * (1 + k[6] % 3)):
+                evs.append(Event(time=Instant(t0 + d), event_type="Request", target=ind, context={"created_at": Instant(t0 + d), "prio": 0}))
+    sim = mksim([ind, srv, sink], n + 400, sources=[a, burst], events=evs)
+    return Scenario(sim, workload=2 * n + len(evs))
 
 
 @family("distributed_rate_limiter", "strkeys")
@@ -874,7 +899,7 @@ def f_pooled_client(case):
     rnd = rng_of(case, 5)
     backend = Replier("backend", lambda e: ticks(1 + rnd.randrange(1 + k[0] % 6)))
     pool = ConnectionPool("pool", backend, min_connections=k[1] % 2, max_connections=1 + k[2] % 3,
-                          connection_timeout=ticks(10 + k[3] % 30), idle_timeout=ticks(5 + k[4] % 40),
+                          connection_timeout=ticks(10 + k[3] % 30), idle_timeout=ticks(2 + k[4] % 12),
                           connection_latency=ConstantLatency(ticks(1 + k[5] % 3)))
     pc = PooledClient("pc", pool, timeout=ticks(3 + k[6] % 8), retry_policy=mk_retry(k[7], k[0], k[1]))
     held = []
@@ -890,7 +915,7 @@ def f_pooled_client(case):
         return pool.release(conn)
     users = [Proc("u_pc", lambda self, e: [pc.send_request(payload=self.events_received, event_type="Query")]),
              Proc("u_direct", direct), Proc("u_direct2", direct)]
-    n = 30
+    n = 24
     srcs = [const_source(f"s{i}", u, 1 + (k[i + 2] % 3), n, case["seed"] + i, etype="Go") for i, u in enumerate(users)]
     sim = mksim([pc, pool, backend] + users, n + 300, sources=srcs)
     return Scenario(sim, workload=3 * n, extra=lambda: {"direct": [u.log for u in users[1:]]})
@@ -929,6 +954,7 @@ def _rel(evs):
 
 def _sync_sim(case, prims, worker_fn, nworkers, rounds, extra=None):
     k = K(case)
+    rounds = 3 * rounds
     workers = [Proc(f"w{i}", worker_fn) for i in range(nworkers)]
     evs = []
     for i, w in enumerate(workers):
@@ -1530,3 +1556,734 @@ def f_replicated_store(case):
     workers, evs = kv_workers(rs, case, 3, 24, 12, ops=("put", "put", "get", "get", "delete"))
     sim = mksim([rs] + reps + workers, 1500, events=evs)
     return Scenario(sim, workload=72, extra=lambda: {"logs": [w.log for w in workers], "status": rs.get_replica_status()})
+
+
+# ------------------------------------------------------------------------------ replication
+def full_mesh(net, nodes, k, base=0):
+    for i, a in enumerate(nodes):
+        for j, b in enumerate(nodes):
+            if i != j:
+                net.add_link(a, b, mk_link(f"{a.name}>{b.name}", [0, 1, 0, 3][(k[(i + j) % 8] + base) % 4], k[i % 8] + j, k[j % 8]))
+
+
+def md_ev(t_ticks, target, etype, **meta):
+    return Event(time=T(t_ticks), event_type=etype, target=target, context={"metadata": dict(meta)})
+
+
+def _fut_summary(futs):
+    return lambda: {"resolved": sum(1 for f in futs if f.is_resolved),
+                    "values": [jsonable(f.value) if f.is_resolved else None for f in futs]}
+
+
+@family("primary_backup", "strkeys", "modrng")
+def f_primary_backup(case):
+    from happysimulator.components.datastore import KVStore
+    from happysimulator.components.network.network import Network
+    from happysimulator.components.replication.primary_backup import BackupNode, PrimaryNode, ReplicationMode
+    k = K(case)
+    net = Network("net")
+    mode = [ReplicationMode.ASYNC, ReplicationMode.SEMI_SYNC, ReplicationMode.SYNC][k[0] % 3]
+    backups = [BackupNode(f"backup{i}", KVStore(f"backup{i}_store", read_latency=ticks(1), write_latency=ticks(1 + (k[1] + i) % 3)),
+                          net, primary=None, serve_reads=True) for i in range(1 + k[2] % 3)]
+    prim = PrimaryNode("primary", KVStore("primary_store", read_latency=ticks(1), write_latency=ticks(1 + k[3] % 3)), backups, net, mode=mode)
+    for b in backups:
+        b._primary = prim          # the repo's own tests close the constructor cycle this way
+    full_mesh(net, [prim] + backups, k)
+    rnd = rng_of(case, 21)
+    futs, evs = [], []
+    for i in range(30):
+        f = SimFuture()
+        futs.append(f)
+        key = rnd.choice(KEYS[:4])
+        if rnd.randrange(4):
+            evs.append(md_ev(1 + i * (1 + k[4] % 3), prim, "Write", key=key, value=f"v{i}", reply_future=f))
+        else:
+            evs.append(md_ev(1 + i * (1 + k[4] % 3), rnd.choice([prim] + backups), "Read", key=key, reply_future=f))
+    sim = mksim([net, prim] + backups + [prim.store] + [b.store for b in backups], 600, events=evs)
+    return Scenario(sim, workload=30 * (1 + len(backups)), extra=_fut_summary(futs))
+
+
+@family("chain_replication", "strkeys", "modrng")
+def f_chain_replication(case):
+    from happysimulator.components.datastore import KVStore
+    from happysimulator.components.network.network import Network
+    from happysimulator.components.replication.chain_replication import build_chain
+    k = K(case)
+    net = Network("net")
+    names = [f"chain{i}" for i in range(2 + k[0] % 3)]
+    nodes = build_chain(names, net, lambda sn: KVStore(sn, read_latency=ticks(1 + k[1] % 2), write_latency=ticks(1 + k[2] % 3)),
+                        craq_enabled=bool(k[3] % 2))
+    full_mesh(net, nodes, k, base=2)
+    rnd = rng_of(case, 22)
+    futs, evs = [], []
+    for i in range(30):
+        f = SimFuture()
+        futs.append(f)
+        key = rnd.choice(KEYS[:4])
+        if rnd.randrange(3):
+            evs.append(md_ev(1 + i * (1 + k[4] % 3), nodes[0], "Write", key=key, value=f"v{i}", reply_future=f))
+        else:
+            tgt = rnd.choice(nodes) if k[3] % 2 else nodes[-1]
+            evs.append(md_ev(1 + i * (1 + k[4] % 3), tgt, "Read", key=key, reply_future=f))
+    sim = mksim([net] + nodes + [n.store for n in nodes], 600, events=evs)
+    return Scenario(sim, workload=30 * len(nodes), extra=_fut_summary(futs))
+
+
+@family("multi_leader", "strkeys", "modrng")
+def f_multi_leader(case):
+    from happysimulator.components.datastore import KVStore
+    from happysimulator.components.network.network import Network
+    from happysimulator.components.replication import conflict_resolver as cr
+    from happysimulator.components.replication.multi_leader import LeaderNode
+    k = K(case)
+    net = Network("net")
+    res = [lambda: cr.LastWriterWins(), lambda: cr.VectorClockMerge(),
+           lambda: cr.CustomResolver(lambda key, vs: sorted(vs, key=lambda v: (str(v.value), v.writer_id))[-1])][k[0] % 3]
+    leaders = [LeaderNode(f"leader{i}", store=KVStore(f"leader{i}_store", read_latency=ticks(1), write_latency=ticks(1 + (k[1] + i) % 3)),
+                          network=net, conflict_resolver=res(), anti_entropy_interval=[0.0, ticks(8 + k[2] % 16)][k[3] % 2])
+               for i in range(2 + k[4] % 2)]
+    for ld in leaders:
+        ld.add_peers([x for x in leaders if x is not ld])
+    full_mesh(net, leaders, k, base=1)
+    rnd = rng_of(case, 23)
+    futs, evs = [], []
+    for i in range(30):
+        f = SimFuture()
+        futs.append(f)
+        ld = rnd.choice(leaders)
+        key = rnd.choice(KEYS[:3])
+        if rnd.randrange(4):
+            evs.append(md_ev(1 + i * (1 + k[5] % 3), ld, "Write", key=key, value=f"v{i}", reply_future=f))
+        else:
+            evs.append(md_ev(1 + i * (1 + k[5] % 3), ld, "Read", key=key, reply_future=f))
+    sim = mksim([net] + leaders + [ld.store for ld in leaders], 500, events=evs)
+    for ld in leaders:
+        e = ld.get_anti_entropy_event()
+        if e is not None:
+            sim.schedule(e)
+    return Scenario(sim, workload=30 * len(leaders), extra=lambda: {**_fut_summary(futs)(), "stores": {ld.name: {key: ld.store.get_sync(key) for key in KEYS[:3]} for ld in leaders}})
+
+
+# ------------------------------------------------------------------------------ consensus
+def cluster_net(nodes, k, lossy=True):
+    from happysimulator.components.network.link import NetworkLink
+    from happysimulator.components.network.network import Network
+    net = Network("net")
+    return net
+
+
+def wire_cluster(net, nodes, k):
+    from happysimulator.components.network.link import NetworkLink
+    for i, a in enumerate(nodes):
+        for b in nodes[i + 1:]:
+            j = nodes.index(b)
+            jit = ExponentialLatency(ticks(1)) if (k[(i + j) % 8] % 3 == 0) else None
+            loss = [0.0, 0.0, 0.05, 0.2][k[(i * j + 1) % 8] % 4]
+            net.add_bidirectional_link(a, b, NetworkLink(f"link-{a.name}-{b.name}", latency=ConstantLatency(ticks(1 + k[(i + 2 * j) % 8] % 3)),
+                                                         jitter=jit, packet_loss_rate=loss))
+
+
+def starter(t_ticks, node, label="StartNode"):
+    return Event.once(T(t_ticks), label, lambda e, n=node: from_lib(n, n.start()))
+
+
+def _kvsm():
+    from happysimulator.components.consensus import KVStateMachine
+    return KVStateMachine()
+
+
+@family("raft", "strkeys", "modrng")
+def f_raft(case):
+    from happysimulator.components.consensus import RaftNode
+    from happysimulator.components.network.network import Network
+    k = K(case)
+    net = Network("net")
+    sms = [_kvsm() for _ in range(3 + 2 * (k[0] % 2))]
+    nodes = [RaftNode(f"node-{i + 1}", net, state_machine=sm, election_timeout_min=ticks(20 + k[1] % 10),
+                      election_timeout_max=ticks(40 + k[2] % 20), heartbeat_interval=ticks(6 + k[3] % 6)) for i, sm in enumerate(sms)]
+    for n in nodes:
+        n.set_peers(nodes)
+    wire_cluster(net, nodes, k)
+    evs = [starter(1 + i % 2, n) for i, n in enumerate(nodes)]
+    futs = []
+
+    def submit(e):
+        ld = next((n for n in nodes if n.is_leader), nodes[e.context.get("i", 0) % len(nodes)])
+        futs.append(ld.submit({"op": "set", "key": KEYS[e.context.get("i", 0) % 4], "value": e.context.get("i", 0)}))
+        return None
+    for i in range(10):
+        evs.append(Event.once(T(90 + 12 * i + k[4] % 5), "ClientSubmit", submit, context={"i": i}))
+    held = {}
+    evs.append(Event.once(T(150 + k[5] % 30), "Partition", lambda e: held.setdefault("p", net.partition(nodes[:1], nodes[1:])) and None))
+    evs.append(Event.once(T(230 + k[5] % 30), "Heal", lambda e: held["p"].heal() if "p" in held else None))
+    sim = mksim([net] + nodes, 330, events=evs)
+    return Scenario(sim, workload=10 * len(nodes) + 60,
+                    extra=lambda: {"resolved": sum(f.is_resolved for f in futs), "terms": [n.current_term for n in nodes],
+                                   "sm": [jsonable(getattr(sm, "_data", None)) for sm in sms]})
+
+
+@family("paxos", "strkeys", "modrng")
+def f_paxos(case):
+    from happysimulator.components.consensus import PaxosNode
+    from happysimulator.components.network.network import Network
+    k = K(case)
+    net = Network("net")
+    nodes = [PaxosNode(f"node-{i + 1}", net, retry_delay=ticks(8 + k[1] % 10)) for i in range(3 + 2 * (k[0] % 2))]
+    for n in nodes:
+        n.set_peers(nodes)
+    wire_cluster(net, nodes, k)
+    futs = []
+
+    def trigger(e):
+        n = nodes[e.context["i"] % len(nodes)]
+        futs.append(n.propose(f"value-{e.context['i']}"))
+        return from_lib(n, n.start_phase1())
+    evs = [Event.once(T(2 + (3 + k[2] % 4) * i), "TriggerProposal", trigger, context={"i": i}) for i in range(2 + k[3] % 3)]
+    sim = mksim([net] + nodes, 300, events=evs)
+    return Scenario(sim, workload=len(evs) * len(nodes) * 4,
+                    extra=lambda: {"decided": [jsonable(f.value) if f.is_resolved else None for f in futs]})
+
+
+@family("multi_paxos", "strkeys", "modrng")
+def f_multi_paxos(case):
+    from happysimulator.components.consensus import FlexiblePaxosNode, MultiPaxosNode
+    from happysimulator.components.network.network import Network
+    k = K(case)
+    net = Network("net")
+    flexible = bool(k[0] % 2)
+    n = 3 + 2 * (k[1] % 2)
+    sms = [_kvsm() for _ in range(n)]
+    if flexible:
+        q1 = 2 + k[2] % (n - 1)
+        nodes = [FlexiblePaxosNode(f"node-{i + 1}", net, state_machine=sm, phase1_quorum=q1, phase2_quorum=n - q1 + 1,
+                                   heartbeat_interval=ticks(8 + k[3] % 8)) for i, sm in enumerate(sms)]
+    else:
+        nodes = [MultiPaxosNode(f"node-{i + 1}", net, state_machine=sm, leader_lease_timeout=ticks(30 + k[2] % 20),
+                                heartbeat_interval=ticks(8 + k[3] % 8)) for i, sm in enumerate(sms)]
+    for nd in nodes:
+        nd.set_peers(nodes)
+    wire_cluster(net, nodes, k)
+    evs = [starter(1, nodes[0], "StartLeader")]
+    if k[4] % 2:
+        evs.append(starter(3 + k[5] % 10, nodes[1], "StartRival"))
+    futs = []
+
+    def submit(e):
+        ld = next((x for x in nodes if x.is_leader), nodes[0])
+        futs.append(ld.submit({"op": "set", "key": KEYS[e.context["i"] % 4], "value": e.context["i"]}))
+        rep = getattr(ld, "_replicate_slot", None)
+        if flexible and rep is not None and ld.is_leader:       # the repo example triggers replication this way
+            return from_lib(ld, rep(ld.log.last_index))
+        return None
+    for i in range(8):
+        evs.append(Event.once(T(40 + 10 * i), "ClientSubmit", submit, context={"i": i}))
+    sim = mksim([net] + nodes, 260, events=evs)
+    return Scenario(sim, workload=8 * n + 40, extra=lambda: {"resolved": sum(f.is_resolved for f in futs),
+                                                             "sm": [jsonable(getattr(sm, "_data", None)) for sm in sms]})
+
+
+@family("membership", "strkeys", "modrng")
+def f_membership(case):
+    from happysimulator.components.consensus import MembershipProtocol
+    from happysimulator.components.network.network import Network
+    k = K(case)
+    net = Network("net")
+    protos = [MembershipProtocol(f"node-{i + 1}", net, probe_interval=ticks(8 + k[0] % 8), suspicion_timeout=ticks(24 + k[1] % 24),
+                                 indirect_probe_count=1 + k[2] % 3, phi_threshold=[8.0, 4.0, 2.0][k[3] % 3]) for i in range(3 + k[4] % 3)]
+    for p in protos:
+        for o in protos:
+            if o is not p:
+                p.add_member(o)
+    wire_cluster(net, protos, k)
+    evs = [starter(1 + i % 3, p, "StartProtocol") for i, p in enumerate(protos)]
+    held = {}
+    evs.append(Event.once(T(80 + k[5] % 20), "Partition", lambda e: held.setdefault("p", net.partition(protos[:1], protos[1:])) and None))
+    evs.append(Event.once(T(180 + k[5] % 20), "Heal", lambda e: held["p"].heal() if "p" in held else None))
+    sim = mksim([net] + protos, 300, events=evs)
+    return Scenario(sim, workload=len(protos) * 40,
+                    extra=lambda: {p.name: {o.name: p.get_member_state(o.name) for o in protos if o is not p} for p in protos})
+
+
+@family("leader_election", "strkeys", "modrng")
+def f_leader_election(case):
+    from happysimulator.components.consensus import BullyStrategy, LeaderElection, RandomizedStrategy, RingStrategy
+    from happysimulator.components.network.network import Network
+    k = K(case)
+    net = Network("net")
+    mk = [BullyStrategy, RingStrategy, lambda: RandomizedStrategy(ballot_range=1000)][k[0] % 3]
+    els = [LeaderElection(f"node-{i + 1}", net, strategy=mk(), election_timeout=ticks(16 + k[1] % 16),
+                          heartbeat_interval=ticks(5 + k[2] % 6)) for i in range(3 + k[3] % 3)]
+    for a in els:
+        for b in els:
+            a.add_member(b)
+    wire_cluster(net, els, k)
+    evs = [starter(1 + i % 2, e_, "StartElection") for i, e_ in enumerate(els)]
+    held = {}
+    evs.append(Event.once(T(100 + k[4] % 20), "Partition", lambda e: held.setdefault("p", net.partition(els[-1:], els[:-1])) and None))
+    evs.append(Event.once(T(170 + k[4] % 20), "Heal", lambda e: held["p"].heal() if "p" in held else None))
+    sim = mksim([net] + els, 260, events=evs)
+    return Scenario(sim, workload=len(els) * 40, extra=lambda: {e_.name: (e_.current_leader, e_.current_term) for e_ in els})
+
+
+@family("distributed_lock", "strkeys")
+def f_distributed_lock(case):
+    from happysimulator.components.consensus import DistributedLock
+    k = K(case)
+    lock = DistributedLock("lockmgr", lease_duration=ticks(6 + k[0] % 12), max_waiters=[0, 2][k[1] % 2])
+    rnd = rng_of(case, 31)
+
+    def client(self, e):
+        name = ["db-lock", "cache-lock"][rnd.randrange(2)]
+        grant = yield lock.acquire(name, self.name)
+        if grant is None:
+            self.log.append("rejected")
+            return None
+        out = []
+        exp = getattr(lock, "_pending_expiry", None)       # the repo example schedules the lease expiry this way
+        if exp is not None:
+            lock._pending_expiry = None
+            out.append(exp)
+            from_lib(lock, exp)
+        hold = 1 + rnd.randrange(2 + k[2] % 14)
+        yield ticks(hold), out
+        ok = lock.release(name, grant.fencing_token) if rnd.randrange(4) else None
+        self.log.append((name, grant.fencing_token, ok))
+        return None
+    clients = [Proc(f"client{i}", client) for i in range(3 + k[3] % 2)]
+
+    def via_event(self, e):
+        f = SimFuture()
+        yield 0.0, [Event(time=self.now, event_type="LockAcquireRequest", target=lock,
+                          context={"metadata": {"lock_name": "db-lock", "requester": self.name}, "reply_future": f})]
+        grant = yield f
+        if grant is not None:
+            yield ticks(2)
+            return [Event(time=self.now, event_type="LockReleaseRequest", target=lock,
+                          context={"metadata": {"lock_name": "db-lock", "fencing_token": grant.fencing_token}})]
+    evc = Proc("eventclient", via_event)
+    n = 16
+    srcs = [const_source(f"s{i}", c, 3 + (k[4] + i) % 4, n * 3, case["seed"] + i, etype="Go") for i, c in enumerate(clients)]
+    srcs.append(const_source("se", evc, 9, n * 3, case["seed"] + 9, etype="Go"))
+    sim = mksim([lock, evc] + clients, n * 3 + 200, sources=srcs)
+    return Scenario(sim, workload=n * len(clients), extra=_logs(clients))
+
+
+# ------------------------------------------------------------------------------ CRDT store
+@family("crdt_store", "strkeys", "modrng")
+def f_crdt_store(case):
+    from happysimulator.components import crdt as C
+    from happysimulator.components.network.network import Network
+    k = K(case)
+    net = Network("net")
+    kind = k[0] % 3
+    factory = [lambda nid: C.GCounter(nid), lambda nid: C.PNCounter(nid), lambda nid: C.ORSet(nid)][kind]
+    stores = [C.CRDTStore(f"store-{c}", net, crdt_factory=factory, gossip_interval=ticks(6 + k[1] % 10)) for c in "abc"[:2 + k[2] % 2]]
+    for s in stores:
+        s.add_peers([o for o in stores if o is not s])
+    wire_cluster(net, stores, k)
+    rnd = rng_of(case, 41)
+    evs, futs = [], []
+    for i in range(30):
+        s = rnd.choice(stores)
+        key = rnd.choice(["page-views", "cart", "likes"])
+        if kind == 0:
+            op, val = "increment", 1 + rnd.randrange(3)
+        elif kind == 1:
+            op, val = rnd.choice(["increment", "decrement"]), 1 + rnd.randrange(3)
+        else:
+            op, val = rnd.choice(["add", "add", "remove"]), rnd.choice(["apple", "pear", "fig"])
+        f = SimFuture()
+        futs.append(f)
+        if rnd.randrange(5):
+            evs.append(md_ev(2 + 3 * i, s, "Write", key=key, operation=op, value=val, reply_future=f))
+        else:
+            evs.append(md_ev(2 + 3 * i, s, "Read", key=key, reply_future=f))
+    sim = mksim([net] + stores, 260, events=evs)
+    for s in stores:
+        g = s.get_gossip_event()
+        if g is not None:
+            sim.schedule(g)
+    return Scenario(sim, workload=30 * len(stores) + 60,
+                    extra=lambda: {"values": {s.name: {key: jsonable(c.value) for key, c in sorted(s.crdts.items())} for s in stores},
+                                   "resolved": sum(f.is_resolved for f in futs)})
+
+
+# ------------------------------------------------------------------------------ sketching collectors (string items)
+@family("sketch_collectors", "strkeys", "hashroute")
+def f_sketch_collectors(case):
+    from happysimulator import sketching as sk
+    from happysimulator.components.sketching import QuantileEstimator, SketchCollector, TopKCollector
+    from happysimulator.distributions.zipf import ZipfDistribution
+    k = K(case)
+    seed = case["seed"]
+    item = lambda e: e.context["item"]  # noqa: E731
+    cms = SketchCollector("cms", sk.CountMinSketch(width=8 + k[0] % 24, depth=2 + k[1] % 3, seed=seed), value_extractor=item)
+    bloom = SketchCollector("bloom", sk.BloomFilter(size_bits=64 + 8 * (k[2] % 16), num_hashes=2 + k[3] % 3, seed=seed), value_extractor=item)
+    hll = SketchCollector("hll", sk.HyperLogLog(precision=4 + k[4] % 5, seed=seed), value_extractor=item)
+    topk = TopKCollector("topk", k=2 + k[5] % 5, value_extractor=item, seed=seed)
+    quant = QuantileEstimator("latency", value_extractor=lambda e: e.context.get("lat"), compression=20.0 + 10 * (k[6] % 5), seed=seed)
+    res = SketchCollector("reservoir", sk.ReservoirSampler(size=3 + k[7] % 6, seed=seed), value_extractor=item)
+    cols = [cms, bloom, hll, topk, quant, res]
+    zipf = ZipfDistribution([f"user-{i}" for i in range(30)], s=1.0 + (k[0] % 3) * 0.25, seed=seed)
+    rnd = rng_of(case, 51)
+
+    def fan(self, e):
+        it = zipf.sample()
+        ctx = {"item": it, "lat": rnd.random() * 0.2}
+        return [Event(time=self.now, event_type="Item", target=c, context=ctx) for c in cols]
+    f = Proc("fanout", fan)
+    n = 120
+    src = const_source("items", f, 1, n, seed, etype="Go")
+    src2 = poisson_source("items2", f, 120.0, n, seed + 1, etype="Go")
+    sim = mksim(cols + [f], n + 50, sources=[src, src2])
+    probes = [f"user-{i}" for i in range(0, 30, 3)] + ["nobody"]
+
+    def extra():
+        return {"cms": [cms.sketch.estimate(p) for p in probes], "bloom": [bloom.sketch.contains(p) for p in probes],
+                "hll": hll.sketch.cardinality(), "topk": [(x.item, x.count, x.error) for x in topk.top()],
+                "quant": [quant.quantile(q) for q in (0.5, 0.9, 0.99)] if quant.sample_count else [],
+                "reservoir": sorted(res.sketch.sample()),
+                "processed": [c.events_processed for c in cols]}
+    return Scenario(sim, workload=2 * n * len(cols), extra=extra)
+
+
+# ------------------------------------------------------------------------------ scheduling
+@family("job_scheduler", "strkeys")
+def f_job_scheduler(case):
+    from happysimulator.components.scheduling import JobDefinition, JobScheduler
+    k = K(case)
+    sched = JobScheduler("etl", tick_interval=ticks(2 + k[0] % 4))
+    ws = {n: Replier(n, ticks(1 + (k[1 + i] % 8))) for i, n in enumerate(["extract", "transform", "load", "report"])}
+    sched.add_job(JobDefinition(name="extract", target=ws["extract"], event_type="Extract", interval=ticks(8 + k[5] % 8), priority=10))
+    sched.add_job(JobDefinition(name="transform", target=ws["transform"], event_type="Transform", interval=ticks(8 + k[5] % 8), priority=5,
+                                depends_on=["extract"]))
+    sched.add_job(JobDefinition(name="load", target=ws["load"], event_type="Load", interval=ticks(8 + k[6] % 8), priority=1,
+                                depends_on=["transform"], context={"table": "facts"}))
+    sched.add_job(JobDefinition(name="report", target=ws["report"], event_type="Report", interval=ticks(20 + k[7] % 10), enabled=bool(k[0] % 2)))
+    evs = [Event.once(T(60), "Toggle", lambda e: sched.disable_job("load") and None),
+           Event.once(T(100), "Toggle", lambda e: sched.enable_job("load") and None)]
+    sim = mksim([sched] + list(ws.values()), 260, events=evs)
+    sim.schedule(sched.start())
+    return Scenario(sim, workload=120, extra=lambda: {n: jsonable(sched.get_job_state(n)) for n in sched.job_names})
+
+
+@family("work_stealing_pool", "strkeys")
+def f_work_stealing_pool(case):
+    from happysimulator.components.scheduling import WorkStealingPool
+    k = K(case)
+    sink = Sink("sink")
+    pool = WorkStealingPool("pool", num_workers=2 + k[0] % 3, downstream=sink, default_processing_time=ticks(1 + k[1] % 4))
+    n = 50
+    a = const_source("a", pool, 1, n, case["seed"])
+    b = poisson_source("b", pool, 200.0, n, case["seed"] + 1)
+    sim = mksim([pool, sink], n + 250, sources=[a, b])
+    return Scenario(sim, workload=2 * n, extra=lambda: {"workers": pool.worker_stats})
+
+
+# ------------------------------------------------------------------------------ deployment
+def _fleet(k, sink, n):
+    from happysimulator.components.load_balancer.load_balancer import LoadBalancer
+    from happysimulator.components.server.server import Server
+    servers = [Server(f"v1-{i}", concurrency=2, service_time=ConstantLatency(ticks(1 + (k[0] + i) % 3)), downstream=sink) for i in range(n)]
+    lb = LoadBalancer("lb", backends=servers)
+    mk = lambda name: Server(name, concurrency=2 + k[1] % 2, service_time=ConstantLatency(ticks(1 + k[2] % 2)), downstream=sink)  # noqa: E731
+    return lb, servers, mk
+
+
+@family("auto_scaler", "strkeys")
+def f_auto_scaler(case):
+    from happysimulator.components.deployment import auto_scaler as asc
+    k = K(case)
+    sink = Sink("sink")
+    lb, servers, mk = _fleet(k, sink, 2)
+    pol = [asc.TargetUtilization(target=[0.3, 0.6][k[3] % 2]), asc.StepScaling(steps=[(0.5, 1), (0.8, 2)]),
+           asc.QueueDepthScaling(scale_out_threshold=2 + k[4] % 4, scale_in_threshold=1)][k[5] % 3]
+    scaler = asc.AutoScaler("scaler", lb, mk, policy=pol, min_instances=1 + k[6] % 2, max_instances=4 + k[7] % 3,
+                            evaluation_interval=ticks(8 + k[0] % 8), scale_out_cooldown=ticks(10 + k[1] % 10), scale_in_cooldown=ticks(20 + k[2] % 10))
+    n = 80
+    a = const_source("a", lb, 1, n, case["seed"])
+    b = poisson_source("b", lb, 250.0, n // 2, case["seed"] + 1)
+    sim = mksim([lb, scaler, sink] + servers, n + 200, sources=[a, b])
+    sim.schedule(scaler.start())
+    return Scenario(sim, workload=2 * n, extra=lambda: {"count": scaler.current_count})
+
+
+@family("rolling_deployer", "strkeys")
+def f_rolling_deployer(case):
+    from happysimulator.components.deployment import RollingDeployer
+    k = K(case)
+    sink = Sink("sink")
+    lb, servers, mk = _fleet(k, sink, 2 + k[3] % 3)
+    dep = RollingDeployer("deployer", lb, mk, batch_size=1 + k[4] % 2, health_check_interval=ticks(3 + k[5] % 5),
+                          healthy_threshold=1 + k[6] % 2, max_failures=1 + k[7] % 3)
+    n = 70
+    a = const_source("a", lb, 1 + k[0] % 2, n, case["seed"])
+    sim = mksim([lb, dep, sink] + servers, n + 250, sources=[a],
+                events=[Event(time=T(10 + k[1] % 10), event_type="_rolling_deploy_start", target=dep, context={})])
+    return Scenario(sim, workload=n, extra=lambda: {"backends": sorted(b.name for b in lb.all_backends)})
+
+
+@family("canary_deployer", "strkeys", "modrng")
+def f_canary_deployer(case):
+    from happysimulator.components.deployment import canary_deployer as cd
+    k = K(case)
+    sink = Sink("sink")
+    lb, servers, mk = _fleet(k, sink, 2 + k[3] % 2)
+    ev_ = [None, cd.ErrorRateEvaluator(max_error_rate=0.05), cd.LatencyEvaluator(max_latency=ticks(2 + k[4] % 4))][k[5] % 3]
+    dep = cd.CanaryDeployer("canary", lb, mk, stages=[cd.CanaryStage(0.1, ticks(10 + k[6] % 10)), cd.CanaryStage(0.5, ticks(10)),
+                                                      cd.CanaryStage(1.0, ticks(8))],
+                            metric_evaluator=ev_, evaluation_interval=ticks(3 + k[7] % 4))
+    n = 80
+    a = const_source("a", lb, 1 + k[0] % 2, n, case["seed"])
+    b = poisson_source("b", lb, 100.0, n, case["seed"] + 1)
+    sim = mksim([lb, dep, sink] + servers, n + 250, sources=[a, b],
+                events=[Event(time=T(8 + k[1] % 10), event_type="_canary_deploy_start", target=dep, context={})])
+    return Scenario(sim, workload=2 * n, extra=lambda: {"backends": sorted(b_.name for b_ in lb.all_backends)})
+
+
+# ------------------------------------------------------------------------------ infrastructure
+@family("infra_cpu_disk", "strkeys", "modrng")
+def f_infra_cpu_disk(case):
+    from happysimulator.components import infrastructure as inf
+    k = K(case)
+    pol = [inf.FairShare(quantum_s=ticks(1 + k[0] % 3)), inf.PriorityPreemptive(quantum_s=ticks(1 + k[0] % 3))][k[1] % 2]
+    cpu = inf.CPUScheduler("cpu", policy=pol, context_switch_s=ticks(1) / 8)
+    prof = [inf.HDD(), inf.SSD(), inf.NVMe(native_queue_depth=2 + k[2] % 4)][k[3] % 3]
+    disk = inf.DiskIO("disk", profile=prof)
+    rnd = rng_of(case, 61)
+
+    def job(self, e):
+        i = self.events_received
+        yield from cpu.execute(f"{self.name}-t{i}", ticks(1 + rnd.randrange(4)), priority=rnd.randrange(3))
+        if rnd.randrange(2):
+            yield from disk.read(4096 * (1 + rnd.randrange(8)))
+        else:
+            yield from disk.write(4096 * (1 + rnd.randrange(4)))
+        self.log.append(("done", i))
+    workers = [Proc(f"job{i}", job) for i in range(3)]
+    n = 12
+    srcs = [const_source(f"s{i}", w, 5 + i, n * 5, case["seed"] + i, etype="Go") for i, w in enumerate(workers)]
+    sim = mksim([cpu, disk] + workers, n * 5 + 300, sources=srcs)
+    return Scenario(sim, workload=n * 3, extra=_logs(workers))
+
+
+@family("infra_page_cache", "strkeys")
+def f_infra_page_cache(case):
+    from happysimulator.components import infrastructure as inf
+    k = K(case)
+    pc = inf.PageCache("pagecache", capacity_pages=3 + k[4] % 6, readahead_pages=k[5] % 3, disk_read_latency_s=ticks(1 + k[6] % 2),
+                       disk_write_latency_s=ticks(1 + k[7] % 3))
+    rnd = rng_of(case, 63)
+
+    def job(self, e):
+        page = rnd.randrange(12)
+        if rnd.randrange(3):
+            yield from pc.read_page(page)
+        else:
+            yield from pc.write_page(page)
+        if rnd.randrange(8) == 0:
+            n_ = yield from pc.flush()
+            self.log.append(("flush", n_))
+        self.log.append(("done", page))
+    workers = [Proc(f"io{i}", job) for i in range(2 + k[0] % 2)]
+    n = 24
+    srcs = [const_source(f"s{i}", w, 2 + i, n * 3, case["seed"] + i, etype="Go") for i, w in enumerate(workers)]
+    sim = mksim([pc] + workers, n * 3 + 200, sources=srcs)
+    return Scenario(sim, workload=n * len(workers), extra=_logs(workers))
+
+
+@family("infra_net_gc", "strkeys", "modrng")
+def f_infra_net_gc(case):
+    from happysimulator.components import infrastructure as inf
+    k = K(case)
+    dns = inf.DNSResolver("dns", cache_capacity=2 + k[0] % 4, root_latency_s=ticks(3), tld_latency_s=ticks(2), auth_latency_s=ticks(1 + k[1] % 3),
+                          records={f"svc{i}.example.com": inf.DNSRecord(f"svc{i}.example.com", f"10.0.0.{i}", ttl_s=ticks(8 + 8 * (i % 3))) for i in range(6)})
+    cc = [inf.AIMD(), inf.Cubic(), inf.BBR()][k[2] % 3]
+    tcp = inf.TCPConnection("tcp", congestion_control=cc, base_rtt_s=ticks(2 + k[3] % 6), loss_rate=[0.0, 0.01, 0.1][k[4] % 3],
+                            retransmit_timeout_s=ticks(10 + k[5] % 20))
+    strat = [inf.StopTheWorld(base_pause_s=ticks(2), interval_s=ticks(20 + k[6] % 20)), inf.ConcurrentGC(pause_s=ticks(1), interval_s=ticks(10 + k[6] % 10)),
+             inf.GenerationalGC(minor_pause_s=ticks(1), major_pause_s=ticks(4), minor_interval_s=ticks(8 + k[6] % 8))][k[7] % 3]
+    gc = inf.GarbageCollector("gc", strategy=strat, heap_pressure=[None, 0.5, 0.9][k[0] % 3])
+    rnd = rng_of(case, 62)
+
+    def req(self, e):
+        host = f"svc{rnd.randrange(7)}.example.com"
+        ip = yield from dns.resolve(host)
+        if rnd.randrange(6) == 0:
+            yield from gc.pause()
+        yield from tcp.send(1460 * (1 + rnd.randrange(12)))
+        self.log.append((host, ip))
+    workers = [Proc(f"req{i}", req) for i in range(2)]
+    n = 24
+    srcs = [const_source(f"s{i}", w, 4 + i, n * 4, case["seed"] + i, etype="Go") for i, w in enumerate(workers)]
+    sim = mksim([dns, tcp, gc] + workers, n * 4 + 300, sources=srcs)
+    sim.schedule(gc.prime())
+    return Scenario(sim, workload=n * 2, extra=_logs(workers))
+
+
+# ------------------------------------------------------------------------------ microservice
+@family("api_gateway", "strkeys", "modrng")
+def f_api_gateway(case):
+    from happysimulator.components.microservice import APIGateway, RouteConfig
+    k = K(case)
+    rnd = rng_of(case, 71)
+    backs = {r: [Replier(f"{r}-be{i}", ticks(1 + (k[i] + j) % 5)) for i in range(1 + (k[2] + j) % 2)] for j, r in enumerate(["search", "cart", "pay"])}
+    routes = {"search": RouteConfig("search", backs["search"], rate_limit_policy=mk_rl_policy(k[3], k[4], k[5]), auth_required=False,
+                                    timeout=ticks(3 + k[6] % 4)),
+              "cart": RouteConfig("cart", backs["cart"], auth_required=True, timeout=None),
+              "pay": RouteConfig("pay", backs["pay"], rate_limit_policy=mk_rl_policy(k[3] + 1, k[5], k[4]), auth_required=True, timeout=ticks(2 + k[7] % 3))}
+    gw = APIGateway("gateway", routes, auth_latency=ticks(1), auth_failure_rate=[0.0, 0.1][k[0] % 2])
+
+    def client(self, e):
+        r = rnd.choice(["search", "search", "cart", "pay", "unknown"])
+        return [Event(time=self.now, event_type="request", target=gw, context={"metadata": {"route": r}})]
+    c = Proc("client", client)
+    n = 60
+    srcs = [const_source("a", c, 1, n, case["seed"], etype="Go"), poisson_source("b", c, 120.0, n, case["seed"] + 1, etype="Go")]
+    sim = mksim([gw, c] + [b for bs in backs.values() for b in bs], n + 200, sources=srcs)
+    return Scenario(sim, workload=2 * n)
+
+
+@family("microservice_patterns", "strkeys", "modrng")
+def f_microservice_patterns(case):
+    from happysimulator.components.microservice import IdempotencyStore, OutboxRelay, Saga, SagaStep, Sidecar
+    k = K(case)
+    rnd = rng_of(case, 72)
+    slowish = lambda e: ticks(1 + rnd.randrange(2 + k[0] % 12))  # noqa: E731
+    pay = Replier("payments", slowish)
+    idem = IdempotencyStore("idem", pay, key_extractor=lambda e: e.context.get("metadata", {}).get("idempotency_key"),
+                            ttl=ticks(20 + k[1] % 40), max_entries=4 + k[2] % 8, cleanup_interval=ticks(10 + k[3] % 10))
+    bus = Collector("bus")
+    outbox = OutboxRelay("outbox", bus, poll_interval=ticks(3 + k[4] % 5), batch_size=1 + k[5] % 4, relay_latency=ticks(1))
+    svc = {n: Replier(n, slowish) for n in ["inventory", "billing", "shipping"]}
+    outcomes = []
+    saga = Saga("saga", [SagaStep("reserve", svc["inventory"], "reserve", svc["inventory"], "unreserve", timeout=ticks(4 + k[6] % 6)),
+                         SagaStep("charge", svc["billing"], "charge", svc["billing"], "refund", timeout=ticks(3 + k[7] % 6)),
+                         SagaStep("ship", svc["shipping"], "ship", svc["shipping"], "cancel", timeout=None)],
+                on_complete=lambda sid, st, res: outcomes.append((sid, st.name)))
+    backend = Replier("mesh_backend", slowish)
+    side = Sidecar("sidecar", backend, rate_limit_policy=mk_rl_policy(k[0], k[1], k[2]) if k[3] % 2 else None, rate_limit_queue_capacity=5,
+                   circuit_failure_threshold=2 + k[4] % 3, circuit_success_threshold=1, circuit_timeout=ticks(10 + k[5] % 10),
+                   request_timeout=ticks(3 + k[6] % 6), max_retries=k[7] % 3, retry_base_delay=ticks(1 + k[0] % 3))
+    primed = []
+
+    def client(self, e):
+        i = self.events_received
+        out = [Event(time=self.now, event_type="payment", target=idem, context={"metadata": {"idempotency_key": f"pay-{rnd.randrange(8)}"}}),
+               Event(time=self.now, event_type="request", target=side, context={"metadata": {"n": i}})]
+        if i % 3 == 0:
+            out.append(Event(time=self.now, event_type="start_order", target=saga, context={"payload": {"order_id": i}}))
+        outbox.write({"order_id": i, "event_type": "order_created"})
+        if not primed:
+            primed.append(1)
+            out.append(from_lib(outbox, [outbox.prime_poll()])[0])
+        return out
+    c = Proc("client", client)
+    n = 40
+    srcs = [const_source("a", c, 2, n * 2, case["seed"], etype="Go")]
+    sim = mksim([idem, pay, outbox, bus, saga, side, backend, c] + list(svc.values()), n * 2 + 250, sources=srcs)
+    return Scenario(sim, workload=4 * n, extra=lambda: {"outcomes": sorted(outcomes), "circuit": side.circuit_state})
+
+
+# ------------------------------------------------------------------------------ behaviour / advertising
+@family("behavior_population", "strkeys", "modrng")
+def f_behavior_population(case):
+    from happysimulator.components import behavior as bh
+    from happysimulator.components.behavior.stimulus import (broadcast_stimulus, influence_propagation, policy_announcement,
+                                                              price_change, targeted_stimulus)
+    k = K(case)
+    seed = case["seed"]
+    util = lambda c, ctx: {"buy": 0.6 + 0.3 * ctx.traits.get("openness"), "wait": 0.5, "switch": 0.3}.get(c.action, 0.1)  # noqa: E731
+    models = [lambda: bh.UtilityModel(utility_fn=util, temperature=[0.0, 0.5][k[0] % 2]),
+              lambda: bh.BoundedRationalityModel(utility_fn=util, aspiration=0.55),
+              lambda: bh.SocialInfluenceModel(individual_fn=util, conformity_weight=0.5),
+              lambda: bh.RuleBasedModel([bh.Rule(condition=lambda ctx: ctx.state.mood > 0.5, action="buy", priority=2)], default_action="wait"),
+              lambda: bh.CompositeModel([(bh.UtilityModel(utility_fn=util), 0.7), (bh.BoundedRationalityModel(utility_fn=util, aspiration=0.4), 0.3)])]
+    mk = models[k[1] % len(models)]
+    size = 6 + k[2] % 6
+    if k[3] % 2:
+        pop = bh.Population.uniform(size=size, decision_model=mk(), graph_type=["small_world", "complete", "random"][k[4] % 3], seed=seed)
+    else:
+        dist = bh.NormalTraitDistribution(means={"openness": 0.7, "agreeableness": 0.6}, stds={"openness": 0.1, "agreeableness": 0.1})
+        pop = bh.Population.from_segments(total_size=size, segments=[
+            bh.DemographicSegment("innovators", fraction=0.3, trait_distribution=dist, decision_model_factory=mk, seed=seed + 1),
+            bh.DemographicSegment("majority", fraction=0.7, trait_distribution=bh.UniformTraitDistribution(["openness", "conscientiousness", "extraversion", "agreeableness", "neuroticism"]), decision_model_factory=mk, seed=seed + 2)],
+            graph_type=["small_world", "complete", "random"][k[4] % 3], seed=seed)
+    log = []
+    for ag in pop.agents:
+        ag.action_delay = ticks(k[5] % 3)
+        ag.heartbeat_interval = ticks(10 + k[6] % 10) if k[7] % 2 else 0.0
+        for act in ("buy", "wait", "switch"):
+            ag.on_action(act, lambda a, choice, e: log.append((a.name, choice.action)) or None)
+    infl = [bh.DeGrootModel(self_weight=0.3), bh.BoundedConfidenceModel(epsilon=0.4, self_weight=0.5), bh.VoterModel()][k[0] % 3]
+    env = bh.BehaviorEnvironment(name="market", agents=pop.agents, social_graph=pop.social_graph, influence_model=infl, seed=seed)
+    for i, ag in enumerate(pop.agents):
+        ag.state.beliefs["product_sentiment"] = (i % 5) / 4.0
+    evs = []
+    for i in range(6):
+        t = ticks(4 + 12 * i)
+        evs.append(broadcast_stimulus(t, env, "Promo", choices=["buy", "wait", "switch"], valence=0.2))
+        evs.append(price_change(t + ticks(3), env, "GadgetX", 100.0, 100.0 - 5 * i))
+        evs.append(influence_propagation(t + ticks(6), env, topic="product_sentiment"))
+    evs.append(targeted_stimulus(ticks(20), env, [a.name for a in pop.agents[:3]], "Coupon", choices=["buy", "wait"]))
+    evs.append(policy_announcement(ticks(30), env, "Tariff", {"tax": 0.1}))
+    sim = mksim([env] + list(pop.agents), 160, events=evs)
+    for ag in pop.agents:
+        hb = ag.schedule_first_heartbeat(Instant.Epoch)
+        if hb is not None:
+            sim.schedule(hb)
+    return Scenario(sim, workload=len(evs) * size,
+                    extra=lambda: {"log": sorted(log), "beliefs": {a.name: a.state.beliefs.get("product_sentiment") for a in pop.agents},
+                                   "pop": pop.stats})
+
+
+@family("advertising", "strkeys")
+def f_advertising(case):
+    from happysimulator.components.advertising import AdPlatform, Advertiser, AudienceTier
+    k = K(case)
+    plat = AdPlatform("platform")
+    advs = []
+    for i in range(2 + k[0] % 2):
+        tiers = [AudienceTier(f"tier{j}", base_monthly_sales=50.0 * (j + 1), base_cpa=8.0 + 12.0 * j + k[1] % 5) for j in range(2 + k[2] % 3)]
+        advs.append(Advertiser(f"shop{i}", product_price=100.0, production_cost=40.0 + 5 * ((k[3] + i) % 4), tiers=tiers, platform=plat,
+                               evaluation_interval=ticks(4 + (k[4] + i) % 6)))
+    evs = []
+    for a in advs:
+        evs += a.start_events()
+        for j in range(5):
+            evs.append(md_ev(10 + 20 * j + k[5] % 7, a, "SentimentChange", sentiment=[1.0, 0.8, 0.55, 0.7, 0.95][(j + k[6]) % 5]))
+    sim = mksim([plat] + advs, 200, events=evs)
+    return Scenario(sim, workload=60)
+
+
+@family("queued_resource_custom", "strkeys")
+def f_queued_resource_custom(case):
+    """A user subclass of QueuedResource exactly as in the repo's CLAUDE.md (has_capacity + handle_queued_event)."""
+    from happysimulator.components.queued_resource import QueuedResource
+    k = K(case)
+    holder = {}
+    sink = Sink("sink")
+    conc = 1 + k[3] % 3
+
+    class MyServer(QueuedResource):
+        def __init__(self, name, downstream):
+            super().__init__(name, policy=mk_policy(k[0], k[1], k[2], [0, 4][k[4] % 2], holder))
+            self.downstream, self._in_flight = downstream, 0
+
+        def has_capacity(self):
+            return self._in_flight < conc
+
+        def handle_queued_event(self, event):
+            self._in_flight += 1
+            try:
+                yield ticks(1 + event.context.get("prio", 0))
+            finally:
+                self._in_flight -= 1
+            return [Event(time=self.now, event_type="Done", target=self.downstream, context=event.context)]
+    srv = MyServer("myserver", sink)
+    holder["e"] = srv
+    n = 50
+    a = const_source("a", srv, 1 + k[5] % 2, n, case["seed"])
+    b = poisson_source("b", srv, 120.0, n, case["seed"] + 1)
+    sim = mksim([srv, sink], n + 300, sources=[a, b])
+    return Scenario(sim, workload=2 * n)
